@@ -555,7 +555,8 @@ def generate():
     lines = [
         "(* GENERATED by translator/gen_rpc.py from /repo -- do not edit *)",
         "From Coq Require Import List NArith.",
-        "From SV Require Import lib.Bytes lib.RpcTypes.",
+        "From SV Require Import lib.Bytes.",
+        "From SV Require Import lib.RpcTypes.",
         "Import ListNotations.",
         "Open Scope N_scope.",
         f"Definition FIELD_SIZE : nat := {env['FIELD_SIZE']}%nat.",
